@@ -223,10 +223,13 @@ pub struct Verdict {
 
 impl Verdict {
     pub fn exit_code(&self) -> i32 {
-        if !self.harness_errors.is_empty() {
-            2
-        } else if !self.violations.is_empty() {
+        // a violation that was confirmed by replaying it in a fresh process is a verdict even if
+        // some other part of the run could not be evaluated (on a changed tree a canary of a
+        // repaired finding may fail to set up, for instance)
+        if !self.violations.is_empty() {
             1
+        } else if !self.harness_errors.is_empty() {
+            2
         } else {
             0
         }
